@@ -6,7 +6,7 @@
 // (raw value = the payload bits the signal occupies, masks cover / do not overlap, one result per
 // standard/enum signal in order) directly on the implementation's results.
 //
-// line:  C n (id start size be kind)* P k hex* ; F m (sig byte mask len off)* D (cnt (id raw)*)* # history
+// line:  C n (id start size be kind)* P k xHEX* ; F m (sig byte mask len off)* D (cnt (id raw)*)* # history
 package main
 
 import (
@@ -45,10 +45,11 @@ type sigView struct {
 type filt struct{ sig, byteIdx, mask, length, off int }
 
 type obs struct {
-	msgBE   bool // Message.ByteOrder() == big endian
-	view    []sigView
-	filters []filt
-	decodes [][][2]uint64 // per payload: (id, raw)
+	brokenBy string // first edit after which the layout was no longer well-formed ("" = never)
+	msgBE    bool   // Message.ByteOrder() == big endian
+	view     []sigView
+	filters  []filt
+	decodes  [][][2]uint64 // per payload: (id, raw)
 	panicked string
 }
 
@@ -59,6 +60,10 @@ type world struct {
 	enums   []*acmelib.SignalEnum
 	enumVal [][]*acmelib.SignalEnumValue
 	nval    int
+	// first edit operation after which the view of the layout stopped being well-formed
+	// (sorted, pairwise disjoint, inside the payload), with "-shared-enum" appended when it is an
+	// enum edit and at least two placed signals refer to that enum
+	brokenBy string
 }
 
 func kindOf(s acmelib.Signal) int {
@@ -78,6 +83,7 @@ func observe(w *world, payloads [][]byte) (o obs) {
 		}
 	}()
 	sl := w.msg.SignalLayout()
+	o.brokenBy = w.brokenBy
 	o.msgBE = w.msg.ByteOrder() == acmelib.MessageByteOrderBigEndian
 	for _, s := range w.msg.Signals() { // layout order
 		o.view = append(o.view, sigView{w.ids[s.EntityID()], s.GetRelativeStartPos(), s.GetSize(),
@@ -111,7 +117,7 @@ func caseLine(o obs, payloads [][]byte, hist string) string {
 	}
 	fmt.Fprintf(&sb, " P %d", len(payloads))
 	for _, p := range payloads {
-		sb.WriteString(" " + hex.EncodeToString(p))
+		sb.WriteString(" x" + hex.EncodeToString(p)) // "x" keeps an empty payload a token
 	}
 	sb.WriteString(" ; ")
 	if o.panicked != "" {
@@ -181,17 +187,23 @@ func wellFormed(view []sigView, nbits int) bool {
 	return true
 }
 
+// layoutClass: failures that are consequences of a layout that stopped being well-formed are
+// classified by the edit that broke it (the cause), not by the symptom
+func layoutClass(o obs, symptom string) string {
+	if o.brokenBy != "" {
+		return "c02-layout-broken-by-" + o.brokenBy
+	}
+	return symptom
+}
+
+func sigInside(v sigView, nbits int) bool {
+	return v.start >= 0 && v.size >= 1 && v.size <= 64 && v.start+v.size <= nbits
+}
+
 func checkProps(o obs, payloads [][]byte, nbits int) []failure {
 	fails := []failure{}
 	if strings.HasPrefix(o.panicked, "history: ") {
 		return nil // an edit operation itself panicked: C01 / C06 territory, no layout to judge
-	}
-	wf := wellFormed(o.view, nbits)
-	if !wf {
-		return nil // not C02's premise (C01 finding); model comparison still runs
-	}
-	if o.panicked != "" {
-		return []failure{{"c02-panic", o.panicked}}
 	}
 	// the byte order of the message is the byte order of every signal in its layout (the spec
 	// below reads the payload in the message's byte order)
@@ -203,10 +215,30 @@ func checkProps(o obs, payloads [][]byte, nbits int) []failure {
 	}
 	byID := map[int]sigView{}
 	wantOrder := []int{}
+	allInside := true
 	for _, v := range o.view {
 		byID[v.id] = v
 		if v.kind != 2 {
 			wantOrder = append(wantOrder, v.id)
+		}
+		// every signal (hence every mask) lies inside the payload of the message
+		if !sigInside(v, nbits) {
+			allInside = false
+			fails = append(fails, failure{layoutClass(o, "c02-signal-outside-payload"), fmt.Sprintf("signal %d start %d size %d does not fit the %d payload bits of the message", v.id, v.start, v.size, nbits)})
+		}
+	}
+	if o.panicked != "" {
+		// Decode on a payload at least as long as the message must not panic
+		cl := "c02-decode-panic"
+		if !allInside {
+			cl = layoutClass(o, "c02-decode-panic-signal-outside-payload")
+		}
+		return append(fails, failure{cl, "Decode panicked: " + o.panicked})
+	}
+	for _, f := range o.filters {
+		if f.byteIdx < 0 || 8*f.byteIdx >= nbits {
+			fails = append(fails, failure{layoutClass(o, "c02-mask-outside-payload"), fmt.Sprintf("filter of signal %d on byte %d of a %d-byte message", f.sig, f.byteIdx, nbits/8)})
+			break
 		}
 	}
 	// one result per standard / enum signal, in layout order, with exactly the payload bits
@@ -221,6 +253,9 @@ func checkProps(o obs, payloads [][]byte, nbits int) []failure {
 				break
 			}
 			v := byID[int(d[0])]
+			if !sigInside(v, nbits) {
+				continue
+			}
 			if exp := rawSpec(v, payloads[pi]); exp != d[1] {
 				cl := "c02-raw-le"
 				if v.be {
@@ -248,10 +283,14 @@ func checkProps(o obs, payloads [][]byte, nbits int) []failure {
 		for _, g := range o.filters[i+1:] {
 			if f.sig != g.sig && f.byteIdx == g.byteIdx && f.mask&g.mask != 0 {
 				cl := "c02-mask-overlap"
-				if isD08(byID[f.sig]) || isD08(byID[g.sig]) {
+				a, b := byID[f.sig], byID[g.sig]
+				if a.start < b.start+b.size && b.start < a.start+a.size {
+					cl = layoutClass(o, "c02-mask-overlap-signals-overlap") // the signals themselves overlap
+				} else if isD08(a) || isD08(b) {
 					cl = "c02-be-one-byte-lsb-anchored"
 				}
-				fails = append(fails, failure{cl, fmt.Sprintf("signals %d and %d share bits %08b of byte %d", f.sig, g.sig, f.mask&g.mask, f.byteIdx)})
+				fails = append(fails, failure{cl, fmt.Sprintf("signals %d (start %d size %d) and %d (start %d size %d) share bits %08b of byte %d",
+					f.sig, byID[f.sig].start, byID[f.sig].size, g.sig, byID[g.sig].start, byID[g.sig].size, f.mask&g.mask, f.byteIdx)})
 			}
 		}
 	}
@@ -261,15 +300,66 @@ func checkProps(o obs, payloads [][]byte, nbits int) []failure {
 // ---------------------------------------------------------------------------- histories
 
 // ops (tokens separated by ','):
-//  M n            new message of n bytes (always first)
-//  NS k size      standard signal k with an integer type of `size` bits (signed iff k+size is odd)
-//  NE k e         enum signal k on enum e          NX k count gsize   multiplexer signal k
-//  EN e min       new enum e                        EA e idx  ER e j  EM e min  EU e j idx  EC e
-//  AP k           AppendSignal    IN k start  InsertSignal    RM k  RemoveSignal
-//  BO b           SetByteOrder    ST k size   SetType (new type)   SE k e  SetEnum
-//  SL k a / SR k a  shift         CP compact  SZ n  UpdateSizeByte
+//
+//	M n            new message of n bytes (always first)
+//	NS k size      standard signal k with an integer type of `size` bits (signed iff k+size is odd)
+//	NE k e         enum signal k on enum e          NX k count gsize   multiplexer signal k
+//	EN e min       new enum e                        EA e idx  ER e j  EM e min  EU e j idx  EC e
+//	AP k           AppendSignal    IN k start  InsertSignal    RM k  RemoveSignal
+//	BO b           SetByteOrder    ST k size   SetType (new type)   SE k e  SetEnum
+//	SL k a / SR k a  shift         CP compact  SZ n  UpdateSizeByte
+func newWorld() *world { return &world{ids: map[acmelib.EntityID]int{}} }
+
+func currentView(w *world) []sigView {
+	v := []sigView{}
+	for _, s := range w.msg.Signals() {
+		v = append(v, sigView{w.ids[s.EntityID()], s.GetRelativeStartPos(), s.GetSize(),
+			s.Endianness() == acmelib.MessageByteOrderBigEndian, kindOf(s)})
+	}
+	return v
+}
+
+// placedRefs counts the signals placed in the message that refer to enum e
+func placedRefs(w *world, e int) int {
+	n := 0
+	if e < 0 || e >= len(w.enums) {
+		return 0
+	}
+	for _, s := range w.msg.Signals() {
+		if es, err := s.ToEnum(); err == nil && es.Enum() == w.enums[e] {
+			n++
+		}
+	}
+	return n
+}
+
 func runHistory(ops []string) *world {
-	w := &world{ids: map[acmelib.EntityID]int{}}
+	w := newWorld()
+	for _, op := range ops {
+		applyOp(w, op)
+	}
+	return w
+}
+
+// applyOp executes one operation and records the first one that breaks the layout
+func applyOp(w *world, op string) {
+	f := strings.Fields(op)
+	if len(f) == 0 {
+		return
+	}
+	shared := ""
+	if w.msg != nil && len(f) > 1 && strings.HasPrefix(f[0], "E") && f[0] != "EN" {
+		if e, err := strconv.Atoi(f[1]); err == nil && placedRefs(w, e) >= 2 {
+			shared = "-shared-enum"
+		}
+	}
+	doOp(w, f)
+	if w.msg != nil && w.brokenBy == "" && !wellFormed(currentView(w), 8*w.msg.SizeByte()) {
+		w.brokenBy = f[0] + shared
+	}
+}
+
+func doOp(w *world, f []string) {
 	at := func(f []string, i int) int { v, _ := strconv.Atoi(f[i]); return v }
 	getSig := func(k int) acmelib.Signal {
 		if k < 0 || k >= len(w.sigs) {
@@ -284,11 +374,7 @@ func runHistory(ops []string) *world {
 		w.sigs[k] = s
 		w.ids[s.EntityID()] = k
 	}
-	for _, op := range ops {
-		f := strings.Fields(op)
-		if len(f) == 0 {
-			continue
-		}
+	{
 		switch f[0] {
 		case "M":
 			w.msg = acmelib.NewMessage("m", 1, at(f, 1))
@@ -296,20 +382,20 @@ func runHistory(ops []string) *world {
 			// signedness does not matter for the layout; RawValue must be the payload bits either way
 			t, err := acmelib.NewIntegerSignalType(fmt.Sprintf("t%d", at(f, 2)), at(f, 2), (at(f, 1)+at(f, 2))%2 == 1)
 			if err != nil {
-				continue
+				return
 			}
 			s, _ := acmelib.NewStandardSignal(fmt.Sprintf("s%d", at(f, 1)), t)
 			setSig(at(f, 1), s)
 		case "NE":
 			if at(f, 2) >= len(w.enums) {
-				continue
+				return
 			}
 			s, _ := acmelib.NewEnumSignal(fmt.Sprintf("s%d", at(f, 1)), w.enums[at(f, 2)])
 			setSig(at(f, 1), s)
 		case "NX":
 			s, err := acmelib.NewMultiplexerSignal(fmt.Sprintf("s%d", at(f, 1)), at(f, 2), at(f, 3))
 			if err != nil {
-				continue
+				return
 			}
 			setSig(at(f, 1), s)
 		case "EN":
@@ -320,7 +406,7 @@ func runHistory(ops []string) *world {
 		case "EA", "ER", "EM", "EU", "EC":
 			e := at(f, 1)
 			if e >= len(w.enums) {
-				continue
+				return
 			}
 			switch f[0] {
 			case "EA":
@@ -391,7 +477,6 @@ func runHistory(ops []string) *world {
 			_ = w.msg.UpdateSizeByte(at(f, 1))
 		}
 	}
-	return w
 }
 
 func safeRun(ops []string, payloadsFor func(nbytes int) [][]byte) (o obs, payloads [][]byte, nbits int) {
@@ -508,7 +593,17 @@ func (rc *recorder) record(cat string, o obs, payloads [][]byte, nbits int, ops 
 		sig := f.class
 		sops := ops
 		detail := f.detail
-		if ops != nil && f.class != "c02-be-one-byte-lsb-anchored" {
+		if strings.HasPrefix(f.class, "c02-layout-broken-by-") {
+			sops = shrink(ops, f.class, payloadsFor)
+			so, sp, snb := safeRun(sops, payloadsFor)
+			for _, g := range checkProps(so, sp, snb) {
+				if g.class == f.class {
+					detail = g.detail
+					break
+				}
+			}
+			detail = "the layout stops being well-formed at the first " + strings.TrimPrefix(f.class, "c02-layout-broken-by-") + " edit of the history; consequence: " + detail
+		} else if ops != nil && f.class != "c02-be-one-byte-lsb-anchored" {
 			sops = shrink(ops, f.class, payloadsFor)
 			so, sp, snb := safeRun(sops, payloadsFor)
 			for _, g := range checkProps(so, sp, snb) {
@@ -576,21 +671,39 @@ func genExhaustive(rc *recorder, r *rng, nrand int) {
 	}
 }
 
-func genHistory(r *rng) []string {
+// genHistory generates a history while executing it, so that the arguments of the edits can be
+// chosen at the boundaries of the current layout (exact fit, one bit more, the byte in which the
+// last signal ends, ...).  The returned op list replays deterministically (up to Go map order
+// inside acmelib).
+func genHistory(r *rng) (ops []string) {
+	w := newWorld()
+	dead := false
+	do := func(op string) {
+		ops = append(ops, op)
+		if dead {
+			return
+		}
+		defer func() {
+			if recover() != nil {
+				dead = true
+			}
+		}()
+		applyOp(w, op)
+	}
 	nbytes := 1 + r.below(8)
 	if r.below(6) == 0 {
 		nbytes = 9 + r.below(8)
 	}
-	ops := []string{fmt.Sprintf("M %d", nbytes)}
+	do(fmt.Sprintf("M %d", nbytes))
 	nenum := 1 + r.below(2)
 	for e := 0; e < nenum; e++ {
-		ops = append(ops, fmt.Sprintf("EN %d %d", e, 1+r.below(6)))
+		do(fmt.Sprintf("EN %d %d", e, 1+r.below(6)))
 		for j := r.below(4); j > 0; j-- {
-			ops = append(ops, fmt.Sprintf("EA %d %d", e, r.below(40)))
+			do(fmt.Sprintf("EA %d %d", e, r.below(40)))
 		}
 	}
 	if r.below(2) == 0 {
-		ops = append(ops, fmt.Sprintf("BO %d", r.below(2)))
+		do(fmt.Sprintf("BO %d", r.below(2)))
 	}
 	nsig := 1 + r.below(12)
 	bitsLeft := 8 * nbytes
@@ -604,58 +717,115 @@ func genHistory(r *rng) []string {
 			if sz > bitsLeft && bitsLeft > 0 {
 				sz = 1 + r.below(bitsLeft)
 			}
-			ops = append(ops, fmt.Sprintf("NS %d %d", k, sz))
+			do(fmt.Sprintf("NS %d %d", k, sz))
 			bitsLeft -= sz
 		case c < 9:
-			ops = append(ops, fmt.Sprintf("NE %d %d", k, r.below(nenum)))
+			do(fmt.Sprintf("NE %d %d", k, r.below(nenum)))
 			bitsLeft -= 4
 		default:
-			ops = append(ops, fmt.Sprintf("NX %d %d %d", k, 1+r.below(5), 1+r.below(10)))
+			do(fmt.Sprintf("NX %d %d %d", k, 1+r.below(5), 1+r.below(10)))
 			bitsLeft -= 8
 		}
 		if r.below(3) == 0 {
-			ops = append(ops, fmt.Sprintf("IN %d %d", k, r.below(8*nbytes)))
+			do(fmt.Sprintf("IN %d %d", k, r.below(8*nbytes)))
 		} else {
-			ops = append(ops, fmt.Sprintf("AP %d", k))
+			do(fmt.Sprintf("AP %d", k))
 		}
 		if r.below(8) == 0 {
-			ops = append(ops, fmt.Sprintf("IN %d %d", k, r.below(8*nbytes))) // retry elsewhere if the first placement was refused
+			do(fmt.Sprintf("IN %d %d", k, r.below(8*nbytes))) // retry elsewhere if the first placement was refused
 		}
 	}
-	// post-placement edits
-	for j := r.below(8); j > 0; j-- {
-		k := r.below(nsig)
-		switch r.below(14) {
-		case 0, 1, 2:
-			ops = append(ops, fmt.Sprintf("ST %d %d", k, 1+r.below(20)))
-		case 3:
-			ops = append(ops, fmt.Sprintf("SE %d %d", k, r.below(nenum)))
-		case 4, 5:
-			ops = append(ops, fmt.Sprintf("EA %d %d", r.below(nenum), r.below(300)))
-		case 6:
-			ops = append(ops, fmt.Sprintf("ER %d %d", r.below(nenum), r.below(3)))
-		case 7:
-			ops = append(ops, fmt.Sprintf("EM %d %d", r.below(nenum), 1+r.below(9)))
-		case 8:
-			ops = append(ops, fmt.Sprintf("EU %d %d %d", r.below(nenum), r.below(3), r.below(200)))
-		case 9:
-			ops = append(ops, fmt.Sprintf("BO %d", r.below(2)))
-		case 10:
-			ops = append(ops, fmt.Sprintf("SL %d %d", k, 1+r.below(9)))
-		case 11:
-			ops = append(ops, fmt.Sprintf("SR %d %d", k, 1+r.below(9)))
-		case 12:
-			if r.below(2) == 0 {
-				ops = append(ops, "CP")
-			} else {
-				ops = append(ops, fmt.Sprintf("RM %d", k))
+	// state-dependent helpers
+	view := func() []sigView {
+		if dead || w.msg == nil {
+			return nil
+		}
+		return currentView(w)
+	}
+	lastEnd := func() int {
+		e := 0
+		for _, v := range view() {
+			if v.start+v.size > e {
+				e = v.start + v.size
 			}
+		}
+		return e
+	}
+	// room(k): gap in front of signal k, free bits behind it (gaps + trailing space), its size
+	room := func(k int) (before, behind, size int, ok bool) {
+		vs := view()
+		prevEnd := 0
+		for i, v := range vs {
+			if v.id == k {
+				before = v.start - prevEnd
+				used := 0
+				for _, u := range vs[i+1:] {
+					used += u.size
+				}
+				behind = 8*w.msg.SizeByte() - (v.start + v.size) - used
+				return before, behind, v.size, true
+			}
+			prevEnd = v.start + v.size
+		}
+		return 0, 0, 0, false
+	}
+	pick := func(c []int) int { return c[r.below(len(c))] }
+	// post-placement edits
+	for j := r.below(9); j > 0; j-- {
+		k := r.below(nsig)
+		switch r.below(17) {
+		case 0, 1, 2:
+			// SetType: around the exact fit of the free bits behind, and of behind + the gap in front
+			nsz := 1 + r.below(20)
+			if before, behind, size, ok := room(k); ok && r.below(3) > 0 {
+				nsz = pick([]int{size + behind, size + behind + 1, size + behind - 1, size + before + behind, size + before, size + 1, size - 1})
+			}
+			if nsz < 1 {
+				nsz = 1
+			}
+			if nsz > 64 {
+				nsz = 64
+			}
+			do(fmt.Sprintf("ST %d %d", k, nsz))
+		case 3:
+			do(fmt.Sprintf("SE %d %d", k, r.below(nenum)))
+		case 4, 5, 6:
+			// AddValue: just above the current maximum (often inside the minimum size), a power of two, random
+			e := r.below(nenum)
+			idx := r.below(300)
+			if !dead && e < len(w.enums) && r.below(2) == 0 {
+				mx := w.enums[e].MaxIndex()
+				idx = pick([]int{mx + 1, mx + 2, 2*mx + 1, 1<<uint(w.enums[e].GetSize()) - 1, 1 << uint(w.enums[e].GetSize())})
+			}
+			do(fmt.Sprintf("EA %d %d", e, idx))
+		case 7:
+			do(fmt.Sprintf("ER %d %d", r.below(nenum), r.below(3)))
+		case 8:
+			do(fmt.Sprintf("EM %d %d", r.below(nenum), 1+r.below(9)))
+		case 9:
+			do(fmt.Sprintf("EU %d %d %d", r.below(nenum), r.below(3), r.below(200)))
+		case 10:
+			do(fmt.Sprintf("BO %d", r.below(2)))
+		case 11:
+			do(fmt.Sprintf("SL %d %d", k, 1+r.below(9)))
+		case 12:
+			do(fmt.Sprintf("SR %d %d", k, 1+r.below(9)))
+		case 13:
+			if r.below(2) == 0 {
+				do("CP")
+			} else {
+				do(fmt.Sprintf("RM %d", k))
+			}
+		case 14, 15:
+			// UpdateSizeByte: the byte in which the last signal ends, one less, one more
+			e := lastEnd()
+			do(fmt.Sprintf("SZ %d", pick([]int{(e + 7) / 8, (e+7)/8 - 1, e / 8, (e+7)/8 + 1, 1 + r.below(8)})))
 		default:
-			ops = append(ops, fmt.Sprintf("EC %d", r.below(nenum)))
+			do(fmt.Sprintf("EC %d", r.below(nenum)))
 		}
 	}
 	if r.below(3) == 0 {
-		ops = append(ops, fmt.Sprintf("BO %d", r.below(2)))
+		do(fmt.Sprintf("BO %d", r.below(2)))
 	}
 	return ops
 }
@@ -713,7 +883,7 @@ func main() {
 		rc.record("replay", o, p, nb, ops, pf)
 	} else {
 		genExhaustive(rc, r, map[bool]int{false: 8, true: 32}[thorough])
-		genHistories(rc, r, map[bool]int{false: 4000, true: 120000}[thorough])
+		genHistories(rc, r, map[bool]int{false: 4000, true: 1000000}[thorough])
 	}
 	rc.w.Flush()
 	fh.Close()
